@@ -10,7 +10,8 @@ from .array import (ndarray, as_dtype, asarray_seq, cast_cell, infer_dtype, scal
         is_symbolic, _broadcast_flat, _broadcast_shapes, _prod, _binop, _not, _str_width,
         str_dtype, cell_strlen, DT_BOOL, DT_INT, DT_FLOAT, DT_OBJECT, _size_str_dtype)
 from .cells import num_eq, num_lt
-from .array import _mark
+from .array import _mark, to_real, from_real
+from .cells import conc
 from . import nondet
 
 _builtin_all, _builtin_any, _builtin_sum, _builtin_min, _builtin_max = all, any, sum, min, max
@@ -544,6 +545,32 @@ def flatnonzero(a):
     return ndarray._from_cells(pos, (len(pos),), DT_INT)
 
 
+def _real_object_reduce(name, a, axis, out):
+    """Object-dtype reductions are Python-level folds whose corner cases (True + 0, comparisons with
+    NaN, the all-NaN paths of the nan* functions) are NumPy's own: when every cell is concrete the
+    REAL function is applied to the same cells (same result, same exception)."""
+    r = getattr(_np, name)(to_real(a), axis=axis)
+    if isinstance(r, _np.ndarray):
+        res = from_real(r)
+        if out is not None:
+            if out._shape != res._shape:
+                raise ValueError('output parameter for reduction operation has the wrong shape')
+            if not out.flags._writeable:
+                raise ValueError('output array is read-only')
+            _mark(out._buf)
+            for p_, v in zip(out._positions(), res._cells()):
+                out._buf[p_] = cast_cell(v, out._dtype)
+            return out
+        return res
+    if out is not None:
+        raise ModelGap('out= with full reduction')
+    return norm_cell(r)
+
+
+def _obj_conc(a):
+    return isinstance(a, ndarray) and a._dtype.kind == 'O' and conc(a)
+
+
 def _num_check(a, name):
     k = a._dtype.kind
     if k in 'USMm' and name not in ('min', 'max'):
@@ -585,6 +612,8 @@ def sum(a, axis=None, dtype=None, out=None, **kw):
     if not isinstance(a, ndarray):
         a = asarray_seq(a, None)
     _num_check(a, 'add')
+    if _obj_conc(a):
+        return _real_object_reduce('sum', a, axis, out)
     if a._dtype.kind == 'O':
         def fn(g):
             s = 0
@@ -604,6 +633,8 @@ def nansum(a, axis=None, dtype=None, out=None, **kw):
     if not isinstance(a, ndarray):
         a = asarray_seq(a, None)
     _num_check(a, 'add')
+    if _obj_conc(a):
+        return _real_object_reduce('nansum', a, axis, out)
     if a._dtype.kind == 'O':
         def fn(g):
             s = 0
@@ -645,6 +676,8 @@ def min(a, axis=None, out=None, **kw):
     if not isinstance(a, ndarray):
         a = asarray_seq(a, None)
     _num_check(a, 'min')
+    if _obj_conc(a):
+        return _real_object_reduce('min', a, axis, out)
     return _reduce(a, axis, out, lambda g: _min_cells(g, False, 'minimum'), a._dtype)
 
 
@@ -654,6 +687,8 @@ def max(a, axis=None, out=None, **kw):
     if not isinstance(a, ndarray):
         a = asarray_seq(a, None)
     _num_check(a, 'max')
+    if _obj_conc(a):
+        return _real_object_reduce('max', a, axis, out)
     return _reduce(a, axis, out, lambda g: _min_cells(g, False, 'maximum'), a._dtype)
 
 
@@ -662,6 +697,8 @@ def nanmin(a, axis=None, out=None, **kw):
     if not isinstance(a, ndarray):
         a = asarray_seq(a, None)
     _num_check(a, 'min')
+    if _obj_conc(a):
+        return _real_object_reduce('nanmin', a, axis, out)
     return _reduce(a, axis, out, lambda g: _min_cells(g, True, 'minimum'), a._dtype)
 
 
@@ -669,6 +706,8 @@ def nanmax(a, axis=None, out=None, **kw):
     if not isinstance(a, ndarray):
         a = asarray_seq(a, None)
     _num_check(a, 'max')
+    if _obj_conc(a):
+        return _real_object_reduce('nanmax', a, axis, out)
     return _reduce(a, axis, out, lambda g: _min_cells(g, True, 'maximum'), a._dtype)
 
 
@@ -790,6 +829,8 @@ def prod(a, axis=None, dtype=None, out=None, **kw):
     if not isinstance(a, ndarray):
         a = asarray_seq(a, None)
     _num_check(a, 'multiply')
+    if _obj_conc(a):
+        return _real_object_reduce('prod', a, axis, out)
     for c in a._cells():
         if is_symbolic(c):
             return _uninterpreted('prod')(a, axis=axis, out=out)
@@ -800,6 +841,8 @@ def nanprod(a, axis=None, dtype=None, out=None, **kw):
     if not isinstance(a, ndarray):
         a = asarray_seq(a, None)
     _num_check(a, 'multiply')
+    if _obj_conc(a):
+        return _real_object_reduce('nanprod', a, axis, out)
     for c in a._cells():
         if is_symbolic(c):
             return _uninterpreted('prod', True)(a, axis=axis, out=out)
